@@ -42,6 +42,19 @@ def main(inp, outp):
                 res["violations"].append({"key": key, "what": what, "data": data})
 
     station = create_station("VfSta", (43.604482, 1.443962, 172.0))
+    _others = {}
+
+    def others():
+        """the Moon frame of the analytical solar system and two Earth-Moon Lagrange frames (synodic axes / EME2000 axes)"""
+        if not _others:
+            from beyond.env import solarsystem as sol
+            from beyond.frames.lagrange import lagrange
+            from beyond.frames.orient import EME2000 as O_EME
+            f_e, f_m = sol.get_frame("Earth"), sol.get_frame("Moon")
+            _others["Moon"] = f_m
+            _others["EML1"] = lagrange(f_e, f_m, 1, name="VfEML1")
+            _others["EML4e"] = lagrange(f_e, f_m, 4, name="VfEML4e", orientation=O_EME)
+        return _others
     kinds = set()
     for di, dspec in enumerate(job["dates"]):
         date = Date(*dspec)
@@ -53,6 +66,8 @@ def main(inp, outp):
         def F(name):
             if name == "Station":
                 return station
+            if name in ("Moon", "EML1", "EML4e"):
+                return others()[name]
             if name in lofs:
                 return lofs[name]
             return fr.get_frame(name)
@@ -83,7 +98,7 @@ def main(inp, outp):
             clause("A->B->A is the identity (1e-6 m, 1e-9 m/s)", dp <= 1e-6 and dv <= 1e-9, "frames/inverse",
                    f"{walk[0]}->{walk[-1]}->{walk[0]} at {dspec} [{job['eop']}]: off by {dp:.3g} m {dv:.3g} m/s", data)
             if len(walk) == 2:
-                same_centre = all(w not in ("Station", "LofN", "LofQ", "LofT") for w in walk)
+                same_centre = all(w not in ("Station", "LofN", "LofQ", "LofT", "Moon", "EML1", "EML4e") for w in walk)
                 if same_centre:
                     # position map = proper rotation: images of the basis vectors
                     cols = []
@@ -118,7 +133,7 @@ def main(inp, outp):
                     # budget: Julian-date quantisation (<= 1.3e-3 m/s) + neglected precession / nutation / polar-motion rates
                     # (<= 6e-5 m/s); the Earth-rotation coupling itself is ~500 m/s.  Frames with QSW/TNW axes are excluded:
                     # the library's local orbital axes are instantaneous (no rotation-rate coupling) by design.
-                    if not any(w in ("LofQ", "LofT") for w in walk):
+                    if not any(w in ("LofQ", "LofT", "Moon", "EML1", "EML4e") for w in walk):
                         clause("converted velocity equals the time derivative of the converted position (3e-3 m/s)", err <= 3e-3,
                                "frames/kinematics", f"{walk} at {dspec} [{job['eop']}]: seven-point derivative differs by {err:.3g} m/s", data)
         # the two precession-nutation chains agree to the accuracy of the uncorrected 1980 model - whatever time scale the
